@@ -14,6 +14,9 @@ CHECKS = {
  "C01": ("reference-graph SCC (branch-free cycle) + parameter relevance over the monad packages (AST, go/types)",
          "Structural necessary conditions, decided for every function of the four generated monad packages: the definitional reference graph has no branch-free cycle (a circular definition diverges on all-success inputs) and every parameter of every combinator is used. A violation names the cycle / the parameter.",
          "§4 C01", "the three laws as value equalities; Seq/List/Iterator/Eval/fn0/fn1 instances"),
+ "C02": ("structured success-test analysis (continuation/handler classification by type), supplier-deferral rule, recover-handler rule (AST, go/types)",
+         "Call-placement clauses decided for every success test of a Try/Option/Either operand in the root package, the monad packages and the folds: no continuation and no iterator pull on the failure side, no handler on the success side, continuations receive a value extracted from the tested operand, a fold stops at the first failed step, short-circuiting functions return the operand itself or a failure built from it alone, recover-style functions return successes untouched; supplier parameters are only invoked inside deferred literals or under a test; the five panic-capturing functions register a recover handler first, which produces a failure carrying the recovered value only when it is non-nil.",
+         "§4 C02", "invocation counts and global left-to-right order across a whole nested generated expression (effect-order summary not built)"),
  "C03": ("path-sensitive nil-fact dataflow on SSA over Map/Set/immutable types, discarded-update rule, exhaustiveness of node type switches",
          "Necessary conditions on the wrappers and on result threading (the trie arithmetic itself is not decided): every call through Map.Base / Set.set / Set.getEmpty / hamt.root / mapBuilder.m is dominated by its nil test (zero value behaves as empty); no persistent update result (Updated/Removed/Incl/Excl/node set/delete …) is discarded outside explicit in-place mode; every type switch over trie nodes has a default, covers all node kinds, or (leaf-only) covers every kind without children.",
          "§4 C03", "trie arithmetic for every history and hasher (bitmaps, popcount indices, node conversions, collision nodes, resized flag)"),
@@ -23,6 +26,12 @@ CHECKS = {
  "C05": ("syntactic protocol rules over the status type switches (CAS-only, final, retry, register, deliver), E1 snapshot immutability, nil-fact dataflow, atomic-cell access rule",
          "Structural conditions without which some interleaving breaks single assignment / exactly-once delivery: the status cell changes only by CompareAndSwap against the pointer loaded in the same attempt; the completed case never writes; every lost CAS is retried; every case of a registration uses the call-back (invokes it with the completed value or swaps in a value built from the old list and the call-back); the completing CAS returns the captured list and Complete calls every element; no Promise/Future method writes memory it did not allocate (published listener slices are immutable); zero Promise/Future is guarded; the atomic cell is touched only through sync/atomic.",
          "§4 C05", "linearizability over all interleavings (schedules are not enumerated)"),
+ "C06": ("must-pass-through on go/cfg, recursively over nested OnComplete/ExecuteUnsafe literals; recover-handler rule",
+         "For every promise created by a combinator that returns the derived future (19 sites): every path of the creating function completes the promise or registers a literal every path of which completes it or registers, recursively, one that does; Apply/Apply2 run the user function under a deferred recover that fails the promise with the panic value.",
+         "§4 C06", "value equality with the Try-level evaluation, 'never earlier', positional order of Sequence/Traverse"),
+ "C09": ("mirrored-accessor-path rule, instance-parameter relevance, hash/eq component-subset rule, hash determinism deny-list (AST, go/types)",
+         "Structural conditions of component-wise equality and of hash/eq agreement: every component Eqv/Less/Compare call in eq, hash and ord applies the same accessor path to the two different operands; every instance parameter is used; for every hash.New(E, h) the instances consulted by h are a subset of those E is built from; hash functions use no unsafe/reflect/uintptr/%p/map iteration/time/rand.",
+         "§4 C09", "reflexivity/symmetry/transitivity and hash agreement as statements over all values"),
  "C10": ("one-sided-comparison rule (R-LEX), mirrored accessor paths, sort.Interface shape check (AST, go/types)",
          "Structural necessary conditions of a strict total order / ordered permutation: every component Less test that falls through to further components is followed by the mirrored test; component calls use the same accessor path on both operands; every in-module sort.Interface keeps index order, swaps exactly i and j and reports len of the same slice.",
          "§4 C10", "transitivity/totality of leaf instances; Min/Max semantics as values"),
@@ -32,6 +41,18 @@ CHECKS = {
  "C12": ("loop-progress rule on go/cfg, eager-scan summaries (least fixpoint), read-ahead and deferred-self-reference rules (AST, go/types)",
          "Termination/laziness clauses, decided for every cursor loop and every lazy constructor of the library: every `for x.HasNext()/NonEmpty()` loop advances x on every back-edge path; no Iterator/List-returning function scans a cursor parameter eagerly; no MakeIterator next() refills its cache by an unbounded scan after taking the element; List/Eval-returning functions refer to themselves only inside deferred literals.",
          "§4 C12", "element-for-element agreement with the Seq reference; pull counts"),
+ "C13": ("map-order rule over the generator packages (loop-body classifier + consumer-chain classifier + frozen/conditional table), generated-file/directive cross-reference, format-error rule",
+         "Two clauses of the property: (1) no enumeration of a hash-ordered collection in gombok/metafp/genfp/template_gen/monad_gen reaches emitted text in map order — every site has an order-insensitive body, a sorted or order-insensitive consumer, or a listed reason that is re-checked on every run where it is conditional; (2) every generated file is named by a directive the generators consume and every such directive's file exists; plus: a format.Source error is fatal.",
+         "§4 C13", "byte-for-byte regeneration (an execution of the generators)"),
+ "C14": ("parametric-fragment check of every generated arity member + directive/member arity cross-reference (AST, go/types, constant evaluation)",
+         "Type-level argument: every member <Family><N> has pairwise distinct type parameters on its bare-typed value positions, fabricates no value, uses no assertion/reflect/panic/loop, uses every positional parameter, and recurses only to a smaller arity — so the type checker forces argument i to position i; every GenerateFromUntil family is declared for exactly the arities its directive prescribes.",
+         "§4 C14", "effect order inside LiftAN/MapN; String()/Name() formats; the parametricity meta-theorem is trusted, not mechanised"),
+ "C15": ("per-method rules on go/cfg for every UnmarshalJSON/MarshalJSON of the module",
+         "For every UnmarshalJSON: the pointer receiver is rejected when nil before any dereference and every store through it happens only when decoding reported no error (or every later return is nil); for every MarshalJSON: the receiver itself is never handed to json.Marshal; fp.Option emits null exactly on the not-defined side and the payload's encoding otherwise.",
+         "§4 C15", "round-trip equality and agreement with encoding/json on the Mutable twin for all struct shapes"),
+ "C16": ("memoiser shape rule, thunk-reference counting, trampoline call-shape rules, deferred-self-call rule, nil-fact dataflow",
+         "Run-once and trampoline clauses: memoisers run the computation only inside once.Do of a per-value sync.Once, first thing in the returned closure; Call/TailCall/MakeList hand their thunk to a memoiser and reference it nowhere else; building an Eval calls no function value eagerly; Run loops on Resume and neither calls back into Run/Get; FoldRight functions defer their self call through lazy.TailCall; zero Eval is guarded.",
+         "§4 C16", "equality with strict evaluation; stack depth as a number"),
  "C17": ("stale-state (affine use) rule on go/cfg over func(S)(Try,S) literals + parameter relevance",
          "Structural necessary conditions for lawful state threading: in every StateT-shaped literal a state that was fed to a run is never used at a point reachable from that run (handlers, later steps and the returned state see the newest state); every parameter of the statet primitives and of the StateT methods is used.",
          "§4 C17", "the state-monad equations as value equalities"),
